@@ -190,15 +190,16 @@ extern long h_alloc_disarm(void);
 extern int h_alloc_counting;
 extern long h_alloc_fired;
 /* wb = 1: the fault may also land inside a write_batch call (a page that fills up is finished there, the chunk buffer grows);
- * the caller carries on with the rest of the history.  What the table is after a failed write_batch is not defined, but a
- * close that says OK must still have produced a structurally valid file (sizes that chain, counts that add up). */
+ * the caller hands the refused batch in again and carries on.  If every call in the end said OK the file must hold the table of
+ * the history; if some call kept failing, a close that says OK must still have produced a structurally valid file.
+ * wb = 2: the fault is delivered inside carquet_writer_close only. */
 static long spec_case_allocfault(hctx* h, fcase* fc, long k, int wb) {
     char path[128]; snprintf(path, sizeof path, "/tmp/verif_fs_%d_f.parquet", (int)getpid());
     fprintf(h->out, "wrspec");
     { FILE* save = h->out; char* mem = NULL; size_t msz = 0; FILE* ms = open_memstream(&mem, &msz);
       h->out = ms; print_case(h, fc); fclose(ms); h->out = save; fputs(mem + 2, h->out); free(mem); }
     fprintf(h->out, " afault=%ld", k);
-    if (wb) fprintf(h->out, " wb=1");
+    if (wb) fprintf(h->out, " wb=%d", wb);
     h_call(h);
     carquet_error_t err; memset(&err, 0, sizeof err);
     carquet_schema_t* sc = carquet_schema_create(&err);
@@ -212,16 +213,20 @@ static long spec_case_allocfault(hctx* h, fcase* fc, long k, int wb) {
     for (int i = 0; i < fc->nsteps; i++) {
         const fstep* s = &fc->steps[i];
         if (s->kind == 1) {
-            h_alloc_counting = 1; int r = (int)carquet_writer_new_row_group(w); h_alloc_counting = 0;
-            if (r != 0) { h_alloc_counting = 1; r = (int)carquet_writer_new_row_group(w); h_alloc_counting = 0; }   /* the caller tries again */
+            h_alloc_counting = wb != 2; int r = (int)carquet_writer_new_row_group(w); h_alloc_counting = 0;
+            if (r != 0) { h_alloc_counting = wb != 2; r = (int)carquet_writer_new_row_group(w); h_alloc_counting = 0; }   /* the caller tries again */
             st[nst++] = r; continue;
         }
         void* v = batch_values(&fc->cols[s->col], s);
         int16_t* d = NULL;
         if (s->has_defs) { d = (int16_t*)h_alloc((size_t)(s->nrows ? s->nrows : 1) * 2); for (int r = 0; r < s->nrows; r++) d[r] = s->defs[r]; }
         int16_t* rl = batch_reps(s);
-        h_alloc_counting = wb;
-        st[nst++] = (int)carquet_writer_write_batch(w, s->col, v, s->nrows, d, rl);
+        h_alloc_counting = wb == 1;
+        int rb = (int)carquet_writer_write_batch(w, s->col, v, s->nrows, d, rl);
+        /* a batch that was refused is handed in again, as a caller would (leaving it out would make the history ragged, which
+         * is the caller's fault and not judged); whether the first attempt had taken part of it is the writer's business */
+        if (rb != 0) rb = (int)carquet_writer_write_batch(w, s->col, v, s->nrows, d, rl);
+        st[nst++] = rb;
         h_alloc_counting = 0;
         free(v); free(d); free(rl);
     }
@@ -239,7 +244,37 @@ static long spec_case_allocfault(hctx* h, fcase* fc, long k, int wb) {
     return seen;
 }
 
+/* a footer of 8-10 KiB (18 columns x 10 row groups, names of varying length so that what is being appended when the footer
+ * buffer has to grow differs from layout to layout): wb = 2 delivers the fault inside carquet_writer_close only, at EVERY
+ * request of the close */
+static void gen_wide_footer_case(hctx* h, fcase* fc, int layout) {
+    memset(fc, 0, sizeof *fc);
+    fc->ncols = 18; fc->codec = 0; fc->page = 1024 * 1024;
+    for (int i = 0; i < fc->ncols; i++) {
+        int len = 3 + (layout * 7 + i * 3) % 12, k = snprintf(fc->cols[i].name, sizeof fc->cols[i].name, "c%d", i);
+        while (k < len && k < 15) fc->cols[i].name[k++] = 'x';
+        fc->cols[i].name[k] = 0; fc->cols[i].rep = 0; fc->cols[i].ptype = 1 + (i + layout) % 2; fc->cols[i].tlen = 0;
+    }
+    int ns = 0;
+    for (int g = 0; g < 10; g++) {
+        for (int c = 0; c < fc->ncols; c++) {
+            fstep* t = &fc->steps[ns++]; t->kind = 0; t->col = c; t->nrows = 1; t->nvals = 1; t->has_defs = 0; t->has_reps = 0;
+            t->defs = (uint8_t*)h_alloc(1); t->defs[0] = 1;
+            t->vals = (uint8_t**)h_alloc(sizeof(uint8_t*)); t->vlen = (int*)h_alloc(sizeof(int));
+            gen_value(h, &fc->cols[c], &t->vals[0], &t->vlen[0]);
+        }
+        if (g + 1 < 10) fc->steps[ns++].kind = 1;
+    }
+    fc->nsteps = ns;
+}
+
 static void gen_c05alloc(hctx* h) {
+    for (int layout = 0; layout < (h->thorough ? 32 : 6); layout++) {
+        fcase fc; gen_wide_footer_case(h, &fc, layout + (int)h_below(h, 32));
+        long K = spec_case_allocfault(h, &fc, 0, 2);
+        for (long k = 1; k <= K; k++) (void)spec_case_allocfault(h, &fc, k, 2);
+        free_case(&fc);
+    }
     long cases = h->thorough ? 30 : 5;
     for (long i = 0; i < cases; i++) {
         fcase fc;
@@ -259,7 +294,7 @@ const h_component comp_c05alloc = { "c05alloc", gen_c05alloc, replay_none_fs };
 static int replay_filespec(hctx* h, const h_line* l) {
     if (strcmp(l->op, "wrspec") != 0) return 0;
     fcase fc; if (parse_case(l, &fc)) { fprintf(stderr, "bad wrspec line\n"); return 1; }
-    if (h_in(l, "afault")) (void)spec_case_allocfault(h, &fc, (long)h_ll(h_in(l, "afault")), h_in(l, "wb") != NULL);
+    if (h_in(l, "afault")) (void)spec_case_allocfault(h, &fc, (long)h_ll(h_in(l, "afault")), h_in(l, "wb") ? (int)h_ll(h_in(l, "wb")) : 0);
     else run_spec_case(h, &fc);
     free_case(&fc); return 1;
 }
